@@ -24,7 +24,12 @@ func (ec *executionContext) PopulateMReqRequires(ctx context.Context, entity *MR
 	if !ok {
 		return fmt.Errorf("representation has no object own")
 	}
-	entity.Ext, entity.Num, entity.Own = ext, int(num), &Owner{ID: fmt.Sprint(own["id"])}
+	entity.Ext, entity.Num, entity.Own = ext, int(num), &Owner{ID: fmt.Sprint(own["id"]), Tier: func() *string {
+		if s, ok := own["tier"].(string); ok {
+			return &s
+		}
+		return nil
+	}()}
 	return nil
 }
 
@@ -46,6 +51,12 @@ func (ec *executionContext) PopulateSReqRequires(ctx context.Context, entity *SR
 	if !ok {
 		return fmt.Errorf("representation has no object own")
 	}
-	entity.Ext, entity.Num, entity.Own = ext, int(num), &Owner{ID: fmt.Sprint(own["id"])}
+	entity.Ext, entity.Num, entity.Own = ext, int(num), &Owner{ID: fmt.Sprint(own["id"]), Tier: func() *string {
+		if s, ok := own["tier"].(string); ok {
+			return &s
+		}
+		return nil
+	}()}
 	return nil
 }
+
